@@ -357,7 +357,7 @@ func c06Run(c c06Case) []*core.Violation {
 			return
 		}
 		for i := range boxes {
-			if boxes[i].Addr != want[i].Local+"@"+want[i].Domain || oracle.NormWS(boxes[i].Name) != oracle.NormWS(want[i].Name) {
+			if boxes[i].Addr != want[i].Local+"@"+want[i].Domain || strings.Trim(boxes[i].Name, " \t") != strings.Trim(want[i].Name, " \t") {
 				vs = append(vs, core.V("field-mismatch", "field %s mailbox %d is %+v, expected name %q addr %s@%s", field, i, boxes[i], want[i].Name, want[i].Local, want[i].Domain))
 			}
 		}
@@ -478,7 +478,7 @@ func c06Run(c c06Case) []*core.Violation {
 
 var c06Names = []string{"", "", "Alice Example", "Müller, Jörg", "日本 太郎", "quote\"inside", "back\\slash", "Dr. A. B. <not@addr>", "comma, separated; semi", "(paren)", "a@b", "Ünï cödé with a really long display name that needs several encoded words to fit",
 	// runes that are not "printable" for strconv but perfectly legal in a display name
-	"100% Name", "%s %d %v", "50%off, Sales", "山田\u3000太郎", "Jean\u00a0Dupont", "rtl\u200fmark", "soft\u00adhyphen", "zero\u200bwidth"}
+	"100% Name", "%s %d %v", "ACME  Billing", "Doe,   John  Q.", "50%off, Sales", "山田\u3000太郎", "Jean\u00a0Dupont", "rtl\u200fmark", "soft\u00adhyphen", "zero\u200bwidth"}
 var c06Invalid = []string{"not an address", "missing-domain@", "@missing-local.example", "two words@example.com", "trailing@example.com>", "<unclosed@example.com", "a@b@c@", ""}
 
 func c06GenAddr(t *rapid.T, hdr string, seq *int) c06Addr {
